@@ -96,7 +96,7 @@ func templates() []graph {
 		{Shape: "two-isomorphic-self-lists", Objs: []gobj{L(0), L(1)}, Root: 0, Other: 1},
 		{Shape: "struct-in-own-list", Objs: []gobj{L(1), S([]string{"x"}, 0)}},
 		{Shape: "struct-in-own-list-root-struct", Objs: []gobj{L(1), S([]string{"x"}, 0)}, Root: 1, Other: 1},
-		{Shape: "struct-dict-struct", Objs: []gobj{D([]string{"s:a"}, 1), S([]string{"f", "g"}, 0, 2), I(7)}, Root: 1},
+		{Shape: "struct-dict-struct", Objs: []gobj{I(7), D([]string{"s:a"}, 2), S([]string{"f", "g"}, 1, 0)}, Root: 2},
 		{Shape: "closure-self-cell", Objs: []gobj{F(nil, 0)}, Cells: []int{0}},
 		{Shape: "closure-cell-list-closure", Objs: []gobj{L(1), F(nil, 0)}, Cells: []int{0}, Root: 1},
 		{Shape: "closure-default-list-closure", Objs: []gobj{L(1), F([]int{0})}, Root: 1},
